@@ -59,16 +59,22 @@ Cnt(t) == Cardinality(t.keys)
 HasRoom(t) == ~t.ph /\ Cnt(t) < t.cap
 AllKeys(c) == UNION {c[j].keys : j \in 1..Len(c)}
 
-\* emplace: the first table that already holds the key or still has room takes it; when every
-\* table is full (or the placeholder) a table twice as large as the last one is chained
-ChainAdd(c, k) ==
-  IF k \in AllKeys(c) THEN c
-  ELSE IF \E j \in 1..Len(c) : HasRoom(c[j])
-       THEN LET j == CHOOSE x \in 1..Len(c) : HasRoom(c[x]) /\ \A y \in 1..(x - 1) : ~HasRoom(c[y])
-            IN [c EXCEPT ![j].keys = @ \cup {k}]
-       ELSE Append(c, Tab(2 * c[Len(c)].cap, {k}, FALSE))
-RECURSIVE ChainAddRange(_, _, _)
-ChainAddRange(c, lo, n) == IF n = 0 THEN c ELSE ChainAddRange(ChainAdd(c, lo), lo + 1, n - 1)
+\* emplace of a set N of new keys in ascending order: every key goes to the first table that still has
+\* room; when every table is full (or the placeholder) a table twice as large as the last one is chained.
+\* (closed form over the tables instead of a recursion over the keys: the key of rank r among N lands in the
+\* table whose cumulative room interval contains r)
+Room(t) == IF t.ph THEN 0 ELSE t.cap - Cnt(t)
+RECURSIVE RoomUpTo(_, _)
+RoomUpTo(c, j) == IF j = 0 THEN 0 ELSE RoomUpTo(c, j - 1) + Room(c[j])
+RECURSIVE Extend(_, _)
+Extend(c, need) == IF RoomUpTo(c, Len(c)) >= need THEN c ELSE Extend(Append(c, Tab(2 * c[Len(c)].cap, {}, FALSE)), need)
+Fill(c, N) ==
+  IF N = {} THEN c
+  ELSE LET e == Extend(c, Cardinality(N))
+           rank == [k \in N |-> Cardinality({x \in N : x < k})]
+       IN [j \in 1..Len(e) |-> [e[j] EXCEPT !.keys = @ \cup {k \in N : rank[k] >= RoomUpTo(e, j - 1) /\ rank[k] < RoomUpTo(e, j)}]]
+ChainAdd(c, k) == Fill(c, {k} \ AllKeys(c))
+ChainAddRange(c, lo, n) == Fill(c, (lo..(lo + n - 1)) \ AllKeys(c))
 
 \* size(): one table -> its counter; otherwise bucket counts of all tables but the last + counter of the last
 RECURSIVE FullSum(_, _, _)
